@@ -92,3 +92,13 @@ Fixpoint ends_with_b (s : bytes) (c : N) : bool :=
   end.
 
 Definition count_b (c : N) (s : bytes) : nat := List.length (filter (N.eqb c) s).
+
+(** lexicographic order on byte strings (C locale) *)
+Fixpoint bytes_ltb (a b : bytes) : bool :=
+  match a, b with
+  | [], [] => false
+  | [], _ :: _ => true
+  | _ :: _, [] => false
+  | x :: a', y :: b' => if x <? y then true else if y <? x then false else bytes_ltb a' b'
+  end.
+Definition bytes_leb (a b : bytes) : bool := negb (bytes_ltb b a).
